@@ -92,6 +92,8 @@ def main():
     verify = "--verify" in args
     inplace = "--inplace" in args
     ids = [a for a in args if not a.startswith("--")] or sorted(d for d in os.listdir(SEEDED) if os.path.isdir(os.path.join(SEEDED, d)))
+    if "--table-only" in args:
+        ids = []
     results = []
     for sid in ids:
         r = run_one(sid, verify, inplace)
@@ -110,11 +112,15 @@ def main():
             continue
         ck = "; ".join(f"{c}: exit {o['exit']}, {o['violations']} violations" for c, o in r["checks"].items())
         first = next((o["first"] for o in r["checks"].values() if o["first"]), "")
-        rows.append(f"| {sid} | {r['property']} | {r['what'][:110]} | {'CAUGHT' if r['caught'] else 'missed'} ({ck}) | {first[:150]} |")
+        hist = ""
+        mp = os.path.join(SEEDED, sid, "meta.json")
+        if os.path.exists(mp):
+            hist = json.load(open(mp)).get("detection_history", "")
+        rows.append(f"| {sid} | {r['property']} | {r['what'][:160]} | {'CAUGHT' if r['caught'] else 'missed'} ({ck}) | {first[:150]} | {hist[:300]} |")
     with open(os.path.join(SEEDED, "RESULTS.md"), "w") as f:
         f.write("# Seeded changes vs. the registered quick checks\n\nGenerated by tools/seeded.py. A change counts as caught when the "
                 "property's quick check exits 1 with replay-confirmed VIOLATION lines on the tree with the change applied.\n\n"
-                "| seeded id | property | change | result | first reported witness |\n|---|---|---|---|---|\n" + "\n".join(rows) + "\n")
+                "| seeded id | property | change | result (current checks) | first reported witness | detection history (empty = caught by the check as first built) |\n|---|---|---|---|---|---|\n" + "\n".join(rows) + "\n")
     print(f"{sum(1 for r in results if r.get('caught'))}/{len(results)} caught")
 
 
